@@ -7,6 +7,7 @@
 package main
 
 import (
+	"context"
 	"crypto/sha256"
 	"encoding/hex"
 	"encoding/json"
@@ -20,6 +21,7 @@ import (
 	"sort"
 	"strconv"
 	"strings"
+	"syscall"
 	"time"
 
 	"verifsim/core"
@@ -296,9 +298,25 @@ func driver(args []string) int {
 			outf := filepath.Join(tmp, fmt.Sprintf("w%d.json", i))
 			a := []string{"worker", "-prop", p.ID, "-tier", *tier, "-idx", fmt.Sprint(i), "-of", fmt.Sprint(nw), "-seed", fmt.Sprint(seed), "-out", outf,
 				"-secs", fmt.Sprint(*secs), "-runs", fmt.Sprint(*runs)}
-			cmd := exec.Command(self, a...)
+			// watchdog: a worker that does not come back (a run that never ends) is trouble, not a verdict
+			limit := 30 * time.Minute
+			if *tier == "thorough" {
+				limit = 6 * time.Hour
+			}
+			if v, err := strconv.Atoi(os.Getenv("VERIF_WATCHDOG_SEC")); err == nil && v > 0 {
+				limit = time.Duration(v) * time.Second
+			}
+			ctx, cancel := context.WithTimeout(context.Background(), limit)
+			defer cancel()
+			cmd := exec.CommandContext(ctx, self, a...)
 			cmd.Env = append(os.Environ(), "GOMAXPROCS=1")
+			cmd.SysProcAttr = &syscall.SysProcAttr{Pdeathsig: syscall.SIGKILL}
 			ob, err := cmd.CombinedOutput()
+			if ctx.Err() != nil {
+				jb, _ := os.ReadFile(outf + ".journal")
+				fmt.Fprintf(os.Stderr, "WATCHDOG: worker %d of %s did not finish within %s; run in progress: %s\n", i, p.ID, limit, strings.TrimSpace(string(jb)))
+				os.Exit(2)
+			}
 			ch <- res{i, err, ob}
 		}(i)
 	}
@@ -402,7 +420,7 @@ func driver(args []string) int {
 					tb, _ := json.Marshal(tf)
 					tpath := filepath.Join(tmp, "race-eval.json")
 					os.WriteFile(tpath, tb, 0o644)
-					cmd := exec.Command(self, "replay", "-file", tpath, "-quiet")
+					cmd := replayCmd(self, tpath)
 					cmd.Env = append(os.Environ(), "GOMAXPROCS=1")
 					ob, _ := cmd.CombinedOutput()
 					return strings.Contains(string(ob), "REPRODUCED")
@@ -431,7 +449,7 @@ func driver(args []string) int {
 					tb, _ := json.Marshal(tf)
 					tpath := filepath.Join(tmp, "hist.json")
 					os.WriteFile(tpath, tb, 0o644)
-					cmd := exec.Command(self, "replay", "-file", tpath, "-quiet")
+					cmd := replayCmd(self, tpath)
 					cmd.Env = append(os.Environ(), "GOMAXPROCS=1")
 					ob, _ := cmd.CombinedOutput()
 					return strings.Contains(string(ob), "REPRODUCED")
@@ -520,7 +538,7 @@ func driver(args []string) int {
 				// a few attempts are allowed before the replay is called irreproducible
 				var last string
 				for attempt := 0; attempt < 5; attempt++ {
-					cmd := exec.Command(self, "replay", "-file", path, "-quiet")
+					cmd := replayCmd(self, path)
 					cmd.Env = append(os.Environ(), "GOMAXPROCS=1")
 					ob, _ := cmd.CombinedOutput()
 					last = string(ob)
@@ -787,4 +805,12 @@ func main() {
 		rc = 2
 	}
 	os.Exit(rc)
+}
+
+// replayCmd runs a replay in a fresh process, bounded in time (a replay that never ends counts as not reproduced).
+func replayCmd(self, path string) *exec.Cmd {
+	ctx, _ := context.WithTimeout(context.Background(), 15*time.Minute)
+	cmd := exec.CommandContext(ctx, self, "replay", "-file", path, "-quiet")
+	cmd.SysProcAttr = &syscall.SysProcAttr{Pdeathsig: syscall.SIGKILL}
+	return cmd
 }
